@@ -733,6 +733,30 @@ def cf_inventory_bounds(ctx: Context, rule: str) -> None:
     ok = got == {'longitude', 'latitude'} and not derived
     ctx.check(rule, ok, "the bounds variables listed as geometry are the ones the coordinates name in their `bounds` attribute (whether or not their layout is usable)", fi,
               derived[0] if derived else fi.node, construct=f"bounds names from the attributes of {sorted(got)}; from derived arrays: {[norm_text(d) for d in derived] or 'none'}")
+    # ... each exactly when it is named and the dataset has a variable of that name
+    from .common import facts
+    apps = [c for c in calls_in(fi) if isinstance(c.func, ast.Attribute) and c.func.attr in ('append', 'add') and len(c.args) == 1 and isinstance(c.args[0], ast.Name)
+            and not any(norm_text(c.args[0]) in norm_text(e) for n in ast.walk(fi.node) if isinstance(n, ast.List) for e in n.elts if norm_text(e).endswith('_name'))]
+    for c in apps:
+        v = c.args[0].id
+        fs = {(t, pol) for t, pol in facts(ctx, fi, c, expand=False) if v in t}
+        named = (f"{v} is None", False) in fs or (f"{v} is not None", True) in fs
+        present = any(pol and t in (f"{v} in self.dataset.variables", f"{v} in self.dataset", f"{v} in self.dataset.variables.keys()") for t, pol in fs)
+        other = sorted(t for t, pol in fs if t not in (f"{v} is None", f"{v} is not None", f"{v} in self.dataset.variables", f"{v} in self.dataset", f"{v} in self.dataset.variables.keys()"))
+        absent_wrong = any((not pol) and t.startswith(f"{v} in self.dataset") for t, pol in fs)
+        ctx.check(rule, named and present and not other and not absent_wrong, "a bounds variable joins the inventory exactly when a coordinate names it and the dataset holds it", fi, c,
+                  construct=f"{norm_text(c)[:40]} under {sorted(t if pol else 'not ' + t for t, pol in fs)}")
+
+
+def mesh_table_accessors(ctx: Context, rule: str) -> None:
+    """`<table>_connectivity` hands out the supplied variable and refuses exactly when it is not valid: the refusal stands under
+    `has_valid_<table>_connectivity` being false (inverted, every mesh that supplies the table fails where it is first read)."""
+    for table in ('edge_node', 'edge_face', 'face_edge', 'face_face'):
+        q = f"{TOPO}.{table}_connectivity"
+        if q not in ctx.p.functions:
+            continue
+        refuses_only_when(ctx, rule, q, 'NoConnectivityVariableException', [(f"self.has_valid_{table}_connectivity", False)],
+                          f"{table}: the accessor refuses exactly when the supplied table is not valid")
 
 
 def constant_name_lookups(ctx: Context, rule: str, members: Iterable[str]) -> None:
